@@ -15,10 +15,10 @@ ASSUMPTIONS = [
 PORTS = [6445, 20086, 6445, 20086, 1, 65535]
 
 
-def make_host(ctx, m, rng, h, kind):
+def make_host(ctx, m, rng, h, kind, ver=None):
     """-> (kind, expected canonical device or None, list of datagram payloads this host may send)"""
     if kind == "good":
-        ver, did, port = rng.choice([2, 3]), rng.randrange(1 << 48), rng.choice([6444, 1, 65535, rng.randrange(1, 65536)])
+        ver, did, port = ver or rng.choice([2, 3]), rng.randrange(1 << 48), rng.choice([6444, 1, 65535, rng.randrange(1, 65536)])
         ty = rng.choice([0xAC, 0xAC, rng.randrange(256)])
         sn, name = S.good_sn(rng), S.good_name(m, rng, ty)
         d = S.ref_reply(m, rng, ver, did, port, sn, name)
@@ -104,10 +104,41 @@ def run(ctx, rep):
         got_hosts = [d[0] for d in devs]
         if len(set(got_hosts)) != len(got_hosts):
             rep.fail("oracle", "duplicate-device", inp, {"reported_hosts": got_hosts})
+        elif any(h not in hosts for h in got_hosts):
+            rep.fail("oracle", "device-reported-under-an-address-that-never-answered", inp,
+                     {"reported_addresses": [S.ip_of(h) for h in got_hosts], "answering_addresses": [S.ip_of(h) for h in sorted(hosts)]})
         elif any(hosts[h][0] != "good" for h in got_hosts):
             rep.fail("oracle", "bad-host-reported", inp, {"reported": devs})
         elif devs != want:
             rep.fail("oracle", "good-host-missing-or-altered", inp, {"reported": devs, "expected": want})
+    # the DEFAULT mode, auto_connect=True: every reported device is queried before it is returned, so a host's task stays pending
+    # for seconds while its duplicates (and the other hosts' replies) keep arriving. V2 hosts (a V3 host would need the cloud:
+    # C19); the simulated hosts accept the TCP connection and stay silent
+    auto = []
+    for _ in range(ctx.n(40, 600)):
+        n = rng.randrange(1, 4)
+        kinds = [rng.choice(["good", "good", rng.choice(S.BAD_CLASSES)]) for _ in range(n)]
+        hosts, dg = {}, []
+        for i, kind in enumerate(kinds):
+            hosts[10 + i] = make_host(ctx, m, rng, 10 + i, kind, ver=2)
+            for j in range(rng.randrange(1, 4)):
+                dg.append((10 + i, rng.choice(PORTS), hosts[10 + i][2][j]))
+        rng.shuffle(dg)
+        times = sorted(rng.randrange(0, 3000) for _ in dg)
+        auto.append((hosts, [(t, *d) for t, d in zip(times, dg)]))
+    resa = S.compare(ctx, rep, [dg for _, dg in auto], tag="discover-auto-connect", auto_connect=True)
+    for (hosts, dg), (im, md) in zip(auto, resa):
+        kinds = tuple(hosts[h][0] for h in sorted(hosts))
+        rep.case(("auto", kinds, tuple(h for _, h, _, _ in dg)), "auto-connect")
+        inp = {"auto_connect": True, "hosts": {h: hosts[h][0] for h in hosts}, "dgrams": [(t, h, p, bytes(d).hex()) for t, h, p, d in dg]}
+        want = sorted(hosts[h][1] for h in hosts if hosts[h][0] == "good")
+        got_hosts = [d[0] for d in im[1]]
+        if im[0] != 0:
+            rep.fail("oracle", "bad-host-aborts-discovery:auto-connect", inp, {"exception": im[0]})
+        elif len(set(got_hosts)) != len(got_hosts):
+            rep.fail("oracle", "duplicate-device:auto-connect", inp, {"reported_hosts": got_hosts})
+        elif im[1] != want:
+            rep.fail("oracle", "good-host-missing-or-altered:auto-connect", inp, {"reported": im[1], "expected": want})
     rep.sample({"hosts": {h: scenarios[0][0][h][0] for h in scenarios[0][0]}, "n_dgrams": len(scenarios[0][1])})
     res2 = S.compare(ctx, rep, corr_only, tag="discover-mixed")
     for dg, (im, md) in zip(corr_only, res2):
